@@ -54,7 +54,7 @@ def predicates_in_closures(F, rep, rule, fn_suffix, want="is_ascii_digit", floor
     """closures of `fn_suffix` passed to Iterator::all must test `want` on their parameter"""
     fs = [f for p, f in san_fns(F).items() if p.endswith(fn_suffix)]
     if not rep.anchor(rule, "Sanitizer::" + fn_suffix, fs): return
-    f = fs[0]; n = 0
+    f = mir.inlined(F, fs[0]); n = 0      # helper predicates (is_all_ascii_digits(..)) are seen through
     for bi, t in f.calls():
         if (mir.callee(t) or "").endswith("Iterator::all") or (mir.callee(t) or "").endswith("Iterator::any"):
             for o in mir.trace_op(f, t[2][1]):
@@ -78,7 +78,8 @@ def predicates_in_closures(F, rep, rule, fn_suffix, want="is_ascii_digit", floor
 def phase_order(F, rep, rule):
     fs = [f for p, f in san_fns(F).items() if p.endswith("Sanitizer::sanitize_to_string")]
     if not rep.anchor(rule, "Sanitizer::sanitize_to_string", fs): return
-    f = fs[0]
+    # new helpers are seen through; the phase functions themselves stay visible as calls
+    f = mir.inlined(F, fs[0], keep=("replace_non_alphanumeric", "remove_leading_zeros", "remove_leading_zeros_from_segment"))
     phases = {"lowercase": ("to_lowercase", "to_ascii_lowercase"), "replace": ("Sanitizer::replace_non_alphanumeric",), "truncate": ("String::truncate",),
               "strip_zeros": ("Sanitizer::remove_leading_zeros",), "trim": ("trim_start_matches", "trim_end_matches", "trim_matches")}
     at = {k: [bi for bi, t in f.calls() if any((mir.callee(t) or "").endswith(x) for x in v)] for k, v in phases.items()}
@@ -101,62 +102,63 @@ def phase_order(F, rep, rule):
 def integer_sanitiser(F, rep, rule):
     fs = [f for p, f in san_fns(F).items() if p.endswith("Sanitizer::sanitize_to_integer")]
     if not rep.anchor(rule, "Sanitizer::sanitize_to_integer", fs): return
-    f = fs[0]
+    f = mir.inlined(F, fs[0])
     # every return of a non-constant-empty string is guarded by all(is_ascii_digit) true and is_empty false
     n = 0
-    for p in mir.enum_paths(f, limit=5000):
-        if f.blocks[p[-1]]["t"][0] != "ret": continue
-        sp = mir.SymPath(f, p)
+    for sp in mir.sym_paths(f, limit=20000):
         r = sp.ret()
         txt = mir.show(r)
-        const_empty = (r[0] == "call" and r[2] and r[2][0] == ("const", "")) 
+        const_empty = r[0] == "call" and ((r[2] and r[2][0] == ("const", "")) or (not r[2] and str(r[1]).endswith("String::new")))
         if const_empty: continue
         n += 1
-        has_all = any(d[0] == "call" and isinstance(d[1], str) and d[1].endswith("Iterator::all") and (rel, vals) in (("ne", (0,)),) or (d[0] == "call" and isinstance(d[1], str) and d[1].endswith("Iterator::all") and not (rel == "eq" and 0 in vals)) for d, (rel, vals), b in sp.conds)
-        nonempty = any(d[0] == "call" and isinstance(d[1], str) and d[1].endswith("::is_empty") and ((rel == "eq" and 0 in vals) or (rel == "ne" and 0 not in vals and False)) for d, (rel, vals), b in sp.conds)
+        fs_ = sp.facts()
+        has_all = any(d[0] == "call" and isinstance(d[1], str) and d[1].endswith("Iterator::all") and truth is True for d, truth, b in fs_)
+        nonempty = any(d[0] == "call" and isinstance(d[1], str) and d[1].endswith("::is_empty") and truth is False for d, truth, b in fs_)
         if has_all and nonempty: rep.ok(rule, "non-empty result only under all(is_ascii_digit) && !is_empty", sample=txt[:80], nontrivial_key="p%d" % n)
         else: rep.bad(rule, "uint-guard", "sanitize_to_integer can return %s without the digits-only / non-empty guard" % txt[:80], f.where())
     rep.floor(rule, "non-empty return paths of sanitize_to_integer", n, 2)
 
 
 def zero_strip_result(F, rep, rule):
-    """On the all-digits branch of remove_leading_zeros_from_segment nothing may return the segment text unstripped:
-    every string produced there is trim_start_matches('0') of the segment, the constant "0", or the Display of a parsed integer."""
-    import parsers
+    """On the all-digits paths of remove_leading_zeros_from_segment nothing may turn the raw segment text into the result:
+    every string built there is trim_start_matches('0') of the segment, the constant "0", or the Display of a parsed integer.
+    Path-based over the inlined body, so helper predicates / helper strippers are seen through."""
     fs = [f for p, f in san_fns(F).items() if p.endswith("Sanitizer::remove_leading_zeros_from_segment")]
     if not rep.anchor(rule, "Sanitizer::remove_leading_zeros_from_segment", fs): return
-    f = fs[0]
-    def digits_guarded(fn, bi):
-        return any(d[0] == "call" and (d[1] or "").endswith("Iterator::all") and pol is True for d, pol, dd in mir.guards_of(fn, bi))
-    def raw_segment(fn, op):
-        """operand is the untouched segment text (parameter / captured parameter), looking through derefs only"""
-        for o in mir.trace_op(fn, op, transparent=("ops::Deref>::deref", "String::as_str", "convert::AsRef")):
-            if o.kind == "param" and o.fn is f and o.data == 2 and not o.fields(): return True
-            if o.kind == "upvar":
-                r = mir.resolve_upvar(F, o)
-                if r and raw_segment(r[0], r[1]): return True
-        return False
-    n = 0; bad = []
-    scope = [(f, None)] + [(c, c) for c in F.children(f.path) if c.kind == "closure"]
-    for g, clo in scope:
-        # a closure is in the guarded region when it is constructed there
-        clo_guarded = False
-        if clo is not None:
-            for bi, si, st in f.stmts():
-                if st[0] == "=" and st[2][0] == "agg" and st[2][1].get("k") == "closure" and st[2][1]["path"] == clo.path:
-                    clo_guarded = digits_guarded(f, bi)
-        for bi, t in g.calls():
-            c = mir.callee(t) or ""
-            if any(x in c for x in ("ToString>::to_string", "ToOwned>::to_owned", "String as std::convert::From", "Clone>::clone", "str>::to_string", "std::string::String::from")) and t[2]:
-                guarded = clo_guarded if clo is not None else digits_guarded(g, bi)
-                if not guarded: continue
+    f = mir.inlined(F, fs[0])
+    CTORS = ("ToString>::to_string", "ToOwned>::to_owned", "String as std::convert::From", "Clone>::clone", "str>::to_string", "std::string::String::from", "::to_string", "::to_owned")
+    def peel(e):
+        while isinstance(e, tuple) and e[0] == "call" and isinstance(e[1], str) and any(e[1].endswith(x) for x in ("Deref>::deref", "String::as_str", "::as_ref", "::borrow")) and e[2]:
+            e = e[2][0]
+        return e
+    n = 0; bad = set()
+    try:
+        paths = mir.sym_paths(f, limit=20000)
+    except mir.TooManyPaths:
+        rep.undecided(rule, "too-many-paths", "remove_leading_zeros_from_segment has too many paths to enumerate", f.where()); return
+    for sp in paths:
+        if not any(d[0] == "call" and isinstance(d[1], str) and d[1].endswith("Iterator::all") and truth is True for d, truth, b in sp.facts()): continue
+        for b, name, args, t in sp.calls:
+            if isinstance(name, str) and any(name.endswith(x) or x in name for x in CTORS) and args:
                 n += 1
-                if raw_segment(g, t[2][0]):
-                    bad.append("%s bb%d line %s" % (g.where(), bi, g.blocks[bi]["line"]))
+                if peel(args[0]) == ("param", 2): bad.add("%s bb%d line %s" % (f.where(), b, f.blocks[b]["line"]))
+            for a in args:
+                if isinstance(a, tuple) and a[0] == "closure":
+                    c = F.fn(a[1])
+                    if c is None: continue
+                    caps = dict(a[2])
+                    for bi2, t2 in c.calls():
+                        c2 = mir.callee(t2) or ""
+                        if any(c2.endswith(x) or x in c2 for x in CTORS) and t2[2]:
+                            n += 1
+                            for o in mir.trace_op(c, t2[2][0], transparent=("ops::Deref>::deref", "String::as_str", "convert::AsRef")):
+                                if o.kind == "upvar":
+                                    ce = caps.get(o.data) or caps.get(str(o.data).lstrip("*&"))
+                                    if ce is not None and peel(ce) == ("param", 2): bad.add("%s bb%d line %s" % (c.where(), bi2, c.blocks[bi2]["line"]))
     if bad:
-        rep.bad(rule, "zeros-not-stripped", "on the all-digits branch the segment text can be returned without stripping its leading zeros (%s): e.g. a digit run too long for an integer parse keeps its zeros" % bad, f.where())
+        rep.bad(rule, "zeros-not-stripped", "on the all-digits branch the segment text can be returned without stripping its leading zeros (%s): e.g. a digit run too long for an integer parse keeps its zeros" % sorted(bad), f.where())
     else:
-        rep.ok(rule, "every string produced on the all-digits branch is stripped text, \"0\" or an integer rendering (%d string constructions)" % n, nontrivial_key="zs")
+        rep.ok(rule, "every string produced on the all-digits paths is stripped text, \"0\" or an integer rendering (%d string constructions)" % n, nontrivial_key="zs")
     rep.floor(rule, "string constructions on the all-digits branch", n, 1)
 
 
@@ -172,7 +174,7 @@ def replace_result_origin(F, rep, rule):
     returning (a trimmed copy of) the input is allowed only when the separator is None."""
     fs = [f for p, f in san_fns(F).items() if p.endswith("Sanitizer::replace_non_alphanumeric")]
     if not rep.anchor(rule, "Sanitizer::replace_non_alphanumeric", fs): return
-    f = fs[0]
+    f = mir.inlined(F, fs[0])
     n = 0; bad = []
     # the function has a loop: enumerate acyclic paths (loop taken at most once), enough to see every return
     for p in mir.enum_paths(f, limit=20000):
@@ -198,7 +200,7 @@ def zero_strip_paths(F, rep, rule):
     """path-sensitive form of the zero-strip rule: on every path where all(is_ascii_digit) held, the result is not the raw segment"""
     fs = [f for p, f in san_fns(F).items() if p.endswith("Sanitizer::remove_leading_zeros_from_segment")]
     if not fs: return
-    f = fs[0]
+    f = mir.inlined(F, fs[0])
     n = 0; bad = []
     for p in mir.enum_paths(f, limit=5000):
         if f.blocks[p[-1]]["t"][0] != "ret": continue
